@@ -4,7 +4,7 @@
    Statement language (impl_lookup, spec_lookup, ...): Image/ViewEq.v.  Witness images: Image/Witnesses.v. *)
 From Coq Require Import List NArith ZArith Bool String.
 From Scalibr Require Import Lib.SortSearch Image.PathTree Image.PathTreeProofs Image.Fill Image.Overlay
-  Image.ImageCases Image.ViewEq Image.Witnesses Image.FillProofs Image.FoldProofs Image.Bounded Image.BoundedProofs Image.DomainP Image.ViewProofs.
+  Image.ImageCases Image.ViewEq Image.Witnesses Image.FillProofs Image.FoldProofs Image.Bounded Image.BoundedProofs Image.DomainP Image.ViewProofs Image.PruneProofs.
 Import ListNotations.
 Open Scope Z_scope.
 
@@ -56,9 +56,10 @@ Print Assumptions pathtree_refines_map.
    size, introducing layer, link destination, content and directory listing.
    NOT proved on all of D.  PROVED for lookups on the sub-domain Dp (no links, explicit parent
    entries) in every view before the final pruning and in every view but the last after it:
-   view_eq_overlay_on_Dp_unpruned, view_eq_overlay_on_Dp (below).  Still open on Dp: the last view
-   after pruning, content and listing equality (lookup_listing_consistent_on_D); open beyond Dp:
-   symbolic links, implicit parents (D_weak).  Also proved:
+   view_eq_overlay_on_Dp_unpruned, view_eq_overlay_on_Dp, and in EVERY view with the default requirer:
+   view_eq_overlay_on_Dp_all_views (below).  Still open on Dp: the last view under a path requirer,
+   content and listing/walk equality (lookup_listing_consistent_on_D); open beyond Dp: symbolic links,
+   implicit parents (D_weak).  Also proved:
      - view_eq_overlay_on_D_bounded_partial: the statement (lookups on the paths a, b, a/a, a/b, a/a/a,
        a/c, c and listings of the root and of every directory among them) for EVERY image of the two
        small-scope families of Bounded.v (273 x 273 two-layer images with <= 2 members per layer;
@@ -109,14 +110,38 @@ Proof. exact view_eq_overlay_on_Dp_unpruned_lemma. Qed.
 Print Assumptions view_eq_overlay_on_Dp_unpruned.
 
 (* ... and for FromV1Image itself, under every requirer, in every view except the last one (the final
-   pruning rewrites only the last view).  For the last view: NOT proved (final_prune_only_whiteouts_on_D,
-   requirer_only_removes_nonrequired are open). *)
+   pruning rewrites only the last view).  The last view: see final_prune_only_whiteouts_on_Dp (default
+   requirer); with a path requirer it is NOT proved (requirer_only_removes_nonrequired is open). *)
 Theorem view_eq_overlay_on_Dp : forall cfg im st,
   Dp cfg im = true -> load cfg im = Some st ->
   forall i p, (S i < List.length (init_slots im))%nat -> p <> [] ->
     impl_lookup st i p = spec_lookup cfg im i p.
 Proof. exact view_eq_overlay_on_Dp_lemma. Qed.
 Print Assumptions view_eq_overlay_on_Dp.
+
+(* the LAST view after the final pruning, default requirer: removeUnnecessaryFileNodes removes exactly the
+   whiteout nodes; when the nested parent of every whiteout target keeps an entry in the final overlay
+   (prune_safe_p: the proved counterpart of the known finding empty-dir-after-whiteout-vanishes), nothing
+   else changes *)
+Theorem final_prune_only_whiteouts_on_Dp : forall cfg im st,
+  Dp cfg im = true -> prune_safe_p cfg im = true -> cfg_req cfg = None ->
+  load cfg im = Some st ->
+  forall p, p <> [] -> (0 < List.length (init_slots im))%nat ->
+    impl_lookup st (List.length (init_slots im) - 1) p = spec_lookup cfg im (List.length (init_slots im) - 1) p.
+Proof. exact final_prune_only_whiteouts_on_Dp_lemma. Qed.
+Print Assumptions final_prune_only_whiteouts_on_Dp.
+
+(* hence: FromV1Image with the default requirer, EVERY view, every path *)
+Theorem view_eq_overlay_on_Dp_all_views : forall cfg im st,
+  Dp cfg im = true -> prune_safe_p cfg im = true -> cfg_req cfg = None ->
+  load cfg im = Some st ->
+  forall i p, (i < List.length (init_slots im))%nat -> p <> [] ->
+    impl_lookup st i p = spec_lookup cfg im i p.
+Proof. exact view_eq_overlay_on_Dp_all_views_lemma. Qed.
+Print Assumptions view_eq_overlay_on_Dp_all_views.
+
+Example good_image_prune_safe : prune_safe_p cfg_default w_good_p = true.
+Proof. vm_compute. reflexivity. Qed.
 
 (* non-vacuity: a three-layer image with replacements, a deleted file, a deleted directory tree, a
    directory turned into a file, "./" spellings and special mode bits lies in Dp *)
